@@ -21,6 +21,7 @@ node).  The caller splices the unparsed function back into the module source.  C
   annot      type hints added to the parameters and the return value
   newparam   an unused trailing keyword parameter `_reserved=None` added
   deadstore  an unused `_checkpoint = 0` inserted
+  constname  a numeric literal bound to a local name first (`_k = 16384; ... _k`)
 """
 
 import ast
@@ -209,6 +210,17 @@ def variants(fn, resolve_callee=None):
                     recv = x.value.func.value
                     x.value = ast.Call(func=ast.Attribute(value=ast.Name(id='np', ctx=ast.Load()), attr='where', ctx=ast.Load()), args=[recv], keywords=[])
                 yield 'nonzero', 'line %d c.nonzero()[0] -> np.where(c)[0]' % ln, (lambda i=i, f=f: _edit(fn, i, f))
+    # ---- a literal gets a local name
+    lits = [(i, n) for i, n in enumerate(nodes) if isinstance(n, ast.Constant) and isinstance(n.value, (int, float)) and not isinstance(n.value, bool)
+            and n.value not in (0, 1, -1, 2) and not isinstance(getattr(n, '_parent', None), ast.keyword)]
+    for i, n in lits[:6]:
+        def f(x, c, val=n.value):
+            nm = '_k_%s' % str(abs(hash(repr(val))) % 10000)
+            ok = _replace_child(c, x, ast.Name(id=nm, ctx=ast.Load()))
+            pos = 1 if (c.body and isinstance(c.body[0], ast.Expr) and isinstance(c.body[0].value, ast.Constant)) else 0
+            c.body.insert(pos, ast.Assign(targets=[ast.Name(id=nm, ctx=ast.Store())], value=ast.Constant(value=val)))
+            return ok
+        yield 'constname', 'line %d literal %r named' % (getattr(n, 'lineno', 0), n.value), (lambda i=i, f=f: _edit(fn, i, f))
     # ---- signature-level rewrites
     def sig_annot():
         c = copy.deepcopy(fn)
